@@ -73,7 +73,7 @@ Theorem desc_sound {P} ident (wf : P -> Prop) body pb : body_spec wf body pb ->
     length r = 512%nat /\ verify_tag r = true /\
     forall rest ext, desc_parse ident pb (r ++ rest) ext = Some (retag t ext (crclen_rec t), p).
 Proof.
-  intros Hspec t p r Hwf Hrec (Hid & Hv & Hc). unfold desc_record in Hrec.
+  intros Hspec t p r Hwf Hrec (Hid & Hv & Hc). subst ident. unfold desc_record in Hrec.
   destruct (body p) as [b|] eqn:Hb; [|discriminate].
   destruct (tag_record t b) as [h|] eqn:Ht; [|discriminate]. apply some_inv in Hrec. subst r.
   destruct (Hspec p b Hwf Hb) as (Hzb & Hlen & Hpb).
@@ -82,7 +82,7 @@ Proof.
   split; [rewrite app_length, Hh; unfold zlen in Hlen; lia|].
   split; [exact (tag_record_verifies_partial t b h Hzb Ht Hfit)|].
   intros rest ext. unfold desc_parse. rewrite <- app_assoc.
-  rewrite (tag_roundtrip t b h rest ext Ht Hv Hfit). cbn [tg_ident]. rewrite Hid, Z.eqb_refl. cbn [negb].
+  rewrite (tag_roundtrip t b h rest ext Ht Hv Hfit). cbn [tg_ident]. rewrite Z.eqb_refl. cbn [negb].
   rewrite (Hpb h rest Hh). unfold retag, crclen_rec, tag_crc_byte_len. rewrite Hlen. reflexivity.
 Qed.
 
@@ -133,23 +133,16 @@ Proof.
   destruct (version =? 2); [|destruct (version =? 3); [|discriminate]]; apply some_inv in H; subst ident;
     unfold nsr_parse, nsr_record, vrs_parse_ident; rewrite vrs_parse_record by reflexivity; reflexivity.
 Qed.
-(* what the three parsers accept *)
-Theorem vrs_parse_ident_ok ok data id : vrs_parse_ident ok data = Some id ->
-  ok id = true /\ nth 0 data 1 = 0 /\ nth 6 data 0 = 1 /\ id = firstn 5 (skipn 1 data).
+(* what the parsers accept *)
+Theorem vrs_parse_ident_ok ok data id : vrs_parse_ident ok data = Some id -> ok id = true.
 Proof.
-  unfold vrs_parse_ident. destruct (vrs_parse data) as [i|] eqn:E; [|discriminate].
-  destruct (ok i) eqn:Eo; [|discriminate]. intros H. apply some_inv in H. subst i.
-  split; [exact Eo|]. unfold vrs_parse in E. change (widths fmt_udf_vrs_widths) with [1; 5; 1; 2041]%nat in E.
-  cbn [split_widths] in E. destruct (length data <? 1)%nat eqn:L1; [discriminate|].
-  destruct (length (skipn 1 data) <? 5)%nat eqn:L2; [discriminate|].
-  destruct (length (skipn 5 (skipn 1 data)) <? 1)%nat eqn:L3; [discriminate|].
-  destruct (length (skipn 1 (skipn 5 (skipn 1 data))) <? 2041)%nat; [discriminate|].
-  unfold d8 in E. destruct data as [|d0 data]; [discriminate|]. cbn [skipn firstn nth] in *.
-  destruct (skipn 5 data) as [|d6 tl] eqn:Es; [discriminate|]. cbn [skipn firstn nth] in E.
-  destruct (d0 =? 0) eqn:E0; [|discriminate]. destruct (d6 =? 1) eqn:E6; [|discriminate].
-  cbn [negb] in E. apply some_inv in E. split; [lia|]. split; [|symmetry; exact E].
-  destruct data as [|a [|b [|c [|d [|e r]]]]]; cbn [skipn] in Es; try discriminate.
-  inversion Es; subst. cbn [nth]. lia.
+  unfold vrs_parse_ident. destruct (vrs_parse data) as [i|]; [|discriminate].
+  destruct (ok i) eqn:Eo; [|discriminate]. intros H. apply some_inv in H. subst i. exact Eo.
+Qed.
+Corollary nsr_parse_ident data id : nsr_parse data = Some id -> id = nsr02_ident \/ id = nsr03_ident.
+Proof.
+  intros H. apply vrs_parse_ident_ok in H. apply orb_prop in H.
+  destruct H as [H|H]; apply zlist_eqb_eq in H; auto.
 Qed.
 
 (* ---- UDFExtentAD ---- *)
@@ -176,15 +169,15 @@ Definition entity_wf (e : entity) : Prop :=
 Lemma entity_len e : length (entity_bytes e) = 32%nat.
 Proof. unfold entity_bytes. rewrite !app_length, !pack_s_length. reflexivity. Qed.
 Lemma entity_zb e : entity_wf e -> zbytes (entity_bytes e).
-Proof. intros (H & _ & _ & B1 & B2). unfold entity_bytes. repeat apply zbytes_app; auto with zb. apply zbytes_one. lia. Qed.
+Proof. intros (H & _ & _ & B1 & B2). unfold entity_bytes.
+  apply zbytes_app; [apply zbytes_one; lia|apply zbytes_app; auto with zb].
+Qed.
 Lemma entity_rt e : entity_wf e -> entity_parse (entity_bytes e) = Some e.
 Proof.
   intros (H & L1 & L2 & _). unfold entity_parse, entity_bytes. rewrite !pack_s_exact by assumption.
-  change ([en_flags e] ++ en_ident e ++ en_suffix e) with ([en_flags e] ++ en_ident e ++ en_suffix e ++ []).
-  rewrite app_nil_r. change ([en_flags e] ++ en_ident e ++ en_suffix e) with (concat [[en_flags e]; en_ident e]  ++ en_suffix e).
+  replace ([en_flags e] ++ en_ident e ++ en_suffix e) with (concat [[en_flags e]; en_ident e; en_suffix e])
+    by (cbn [concat]; rewrite app_nil_r; reflexivity).
   replace [1; 23; 8]%nat with (map (@length Z) [[en_flags e]; en_ident e; en_suffix e]) by (cbn [map length]; congruence).
-  replace (concat [[en_flags e]; en_ident e] ++ en_suffix e) with (concat [[en_flags e]; en_ident e; en_suffix e])
-    by (cbn [concat]; rewrite app_nil_r, <- !app_assoc; reflexivity).
   rewrite split_concat_nil. unfold d8. cbn [nth]. kill_ifs. destruct e; reflexivity.
 Qed.
 
@@ -193,7 +186,7 @@ Definition charspec_wf (c : charspec) : Prop := 0 <= cs_type c <= 8 /\ length (c
 Lemma charspec_len c : length (charspec_bytes c) = 64%nat.
 Proof. unfold charspec_bytes. rewrite app_length, pack_s_length. reflexivity. Qed.
 Lemma charspec_zb c : charspec_wf c -> zbytes (charspec_bytes c).
-Proof. intros (H & _ & B). unfold charspec_bytes. apply zbytes_app; auto with zb. apply zbytes_one. lia. Qed.
+Proof. intros (H & _ & B). unfold charspec_bytes. apply zbytes_app; [apply zbytes_one; lia|auto with zb]. Qed.
 Lemma charspec_rt c : charspec_wf c -> charspec_parse (charspec_bytes c) = Some c.
 Proof.
   intros (H & L & _). unfold charspec_parse, charspec_bytes. rewrite pack_s_exact by exact L.
@@ -337,7 +330,7 @@ Proof. intros H. apply (desc_sound 8 _ td_body td_parse_body td_spec t tt r I H)
 Definition usd_wf (d : usd) : Prop :=
   us_num d = zlen (us_descs d) /\ us_num d <= 61 /\ Forall extad_wf (us_descs d).
 Lemma extads_bytes_len ds : length (concat (map extad_bytes ds)) = (8 * length ds)%nat.
-Proof. induction ds as [|a ds IH]; [reflexivity|]. cbn [map concat]. rewrite app_length, IH, extad_len. lia. Qed.
+Proof. induction ds as [|a ds IH]; [reflexivity|]. cbn [map concat length]. rewrite app_length, IH, extad_len. lia. Qed.
 Lemma extads_zb ds : zbytes (concat (map extad_bytes ds)).
 Proof. apply zbytes_concat. apply Forall_forall. intros x Hx. apply in_map_iff in Hx. destruct Hx as (a & <- & _). apply extad_zb. Qed.
 Lemma extads_rt ds : forall rest, Forall extad_wf ds ->
@@ -357,13 +350,14 @@ Proof.
   split; [apply zbytes_concat; cbn [usd_fields]; pose proof (extads_zb (us_descs d)); zb_fields|].
   split; [apply (fields_zlen _ _ _ (usd_layout d)); reflexivity|].
   intros h rest Hh. unfold usd_parse_body. rewrite (tagged_split h _ rest _ Hh (usd_layout d)).
-  cbn [usd_fields]. rewrite !le32_dle32 by rng.
+  cbn [usd_fields]. rewrite !le32_dle32 by rng. unfold zeros.
   rewrite pack_s_exact.
   2:{ rewrite app_length, repeat_length. unfold zlen. rewrite extads_bytes_len. unfold zlen in Hn. lia. }
-  rewrite zlen_app. unfold zeros, zlen at 2. rewrite repeat_length.
-  unfold zlen at 1 2. rewrite extads_bytes_len. unfold zlen in Hn.
+  assert (Hz : zlen (concat (map extad_bytes (us_descs d))) = 8 * us_num d)
+    by (unfold zlen; rewrite extads_bytes_len; unfold zlen in Hn; lia).
+  rewrite zlen_app, Hz. unfold zlen at 1. rewrite repeat_length.
   replace (us_num d * 8 >? _) with false by lia.
-  rewrite Hn, Nat2Z.id, extads_rt by exact Hds. unfold zlen. rewrite <- Hn. destruct d; reflexivity.
+  rewrite Hn. unfold zlen at 1. rewrite Nat2Z.id, extads_rt by exact Hds. destruct d; cbn in *; subst; reflexivity.
 Qed.
 Theorem usd_sound t d r : usd_wf d -> usd_record (t, d) = Some r -> tag_wf 7 t ->
   length r = 512%nat /\ verify_tag r = true /\
